@@ -70,7 +70,7 @@ class Item:
 
 
 def compile_items(arts, items, tag, emit="metadata", nshards=64, jobs=16, extra_flags=(), prelude=PRELUDE, edition="2021", crate_type="lib",
-                  mod_doc=False, cap_lints=True, keep_files=None, mod_inner=""):
+                  mod_doc=False, cap_lints=True, keep_files=None, mod_inner="", mod_use="use super::*;"):
     """Compile all items, sharded over rustc processes. Returns dict key -> list of (code, message, level)
     for errors; probe keys are (item_key, probe_key)."""
     out_dir = os.path.join(B.WORK, "declmc", tag)
@@ -87,7 +87,7 @@ def compile_items(arts, items, tag, emit="metadata", nshards=64, jobs=16, extra_
         for j, it in shards[si]:
             if mod_doc:
                 lines.append("/// module")
-            lines.append(f"pub mod m{j} {{ use super::*; {mod_inner}")
+            lines.append(f"pub mod m{j} {{ {mod_use} {mod_inner}")
             start = len(lines) + 1
             body = it.text.split("\n")
             lines.extend(body)
